@@ -220,18 +220,19 @@ Proof.
     rewrite A, B. apply IH. intros; apply H; simpl; auto.
 Qed.
 
-Lemma combine_flat arrived p id g :
-  wf (arrived ++ [(p, (id, g))]) ->
-  combine (c1 items) (mkst (tv_of arrived) []) p (id, g) =
-  (mkst (tv_of (arrived ++ [(p, (id, g))])) [], emission arrived (p, (id, g)), None).
+Lemma combine_flat (arrived : list arv) (x : arv) :
+  wf (arrived ++ [x]) ->
+  combine (c1 items) (mkst (tv_of arrived) []) (fst x) (snd x) =
+  (mkst (tv_of (arrived ++ [x])) [], emission arrived x, None).
 Proof.
-  intros (NDi & Hports & NDk & Hflat). set (x := (p, (id, g)) : arv) in *.
+  intros (NDi & Hports & NDk & Hflat). set (p := fst x). set (g := atag x).
   assert (Hp : In p items) by (apply (Hports x); rewrite in_app_iff; simpl; auto).
   destruct (tags_spec arrived) as [NDt Mt].
   unfold combine, c1. simpl oitems. rewrite find_inner_ports, names_items.
   assert (existsb (String.eqb p) items = true) as ->.
   { apply existsb_exists. exists p. split; auto. apply String.eqb_refl. }
-  unfold combine1, add_to_list. simpl elem_tag. simpl otv.
+  unfold combine1. simpl okind. cbv iota. unfold add_to_list.
+  change (elem_tag (ETok (snd x))) with g. simpl otv.
   (* propagation does nothing *)
   rewrite propagate_flat.
   2:{ intros k Hk. unfold tv_of in Hk. rewrite mk_keys in Hk. apply Mt in Hk.
@@ -243,8 +244,8 @@ Proof.
   set (l := sel g arrived).
   assert (NDl' : NoDup (map fst (sel g (arrived ++ [x])))) by now apply sel_ports_nodup.
   assert (El' : sel g (arrived ++ [x]) = l ++ [x]).
-  { rewrite sel_snoc. unfold x at 2, atag. simpl. now rewrite String.eqb_refl. }
-  rewrite El' in NDl'. rewrite map_app in NDl'. simpl in NDl'.
+  { rewrite sel_snoc. fold g. now rewrite String.eqb_refl. }
+  rewrite El' in NDl'. rewrite map_app in NDl'. simpl in NDl'. fold p in NDl'.
   assert (Hpl : ~ In p (map fst l)).
   { apply NoDup_remove_2 in NDl'. rewrite app_nil_r in NDl'. exact NDl'. }
   assert (NDl : NoDup (map fst l)) by (apply NoDup_remove_1 in NDl'; now rewrite app_nil_r in NDl').
@@ -253,7 +254,7 @@ Proof.
     { intros q [<-|Hq]; auto. apply in_map_iff in Hq. destruct Hq as (y & <- & Hy). apply sel_in in Hy.
       apply Hports. rewrite in_app_iff. tauto. }
     assert (NoDup (p :: map fst l)) by (constructor; auto).
-    pose proof (NoDup_incl_length H0 H) as L. cbn [length] in L. rewrite map_length in L. unfold n in *. lia. }
+    pose proof (NoDup_incl_length H0 H) as L. cbn [length] in L. rewrite map_length in L. unfold n in *. exact L. }
   assert (Fg : F arrived g = ones l).
   { unfold F. fold l. destruct (Nat.eqb_spec (length l) n); [lia|reflexivity]. }
   assert (Cur : match lookup g (tv_of arrived) with Some pv => pv | None => [] end = ones l).
@@ -265,14 +266,14 @@ Proof.
       assert (In y (sel g arrived)) by (fold l; rewrite E; simpl; auto).
       apply sel_in in H. destruct H as [H <-]. now apply in_map. }
   rewrite Cur. unfold dot_add.
-  rewrite lookup_notin by (unfold ones; rewrite map_map; exact Hpl).
-  rewrite assoc_set_notin by (unfold ones; rewrite map_map; exact Hpl).
-  replace (ones l ++ [(p, [ETok (id, g)])]) with (ones (l ++ [x])) by (unfold ones; now rewrite map_app).
+  rewrite (lookup_notin p (ones l)) by (unfold ones; rewrite map_map; exact Hpl).
+  rewrite (assoc_set_notin p _ (ones l)) by (unfold ones; rewrite map_map; exact Hpl).
+  replace (ones l ++ [(p, [ETok (snd x)])]) with (ones (l ++ [x])) by (unfold ones; now rewrite map_app).
   (* the state after the add is mk G ts' *)
   set (ts' := tags (arrived ++ [x])).
   set (G := upd (F arrived) g (ones (l ++ [x]))).
   assert (Emid : assoc_set g (ones (l ++ [x])) (tv_of arrived) = mk G ts').
-  { unfold ts'. rewrite tags_snoc. unfold add_tag, x at 1, atag. simpl.
+  { unfold ts'. rewrite tags_snoc. fold g. unfold add_tag.
     destruct (existsb (String.eqb g) (tags arrived)) eqn:Ex.
     - apply existsb_eqb_in in Ex. unfold tv_of. now rewrite assoc_set_mk.
     - assert (~ In g (tags arrived)) by (rewrite <- existsb_eqb_in; congruence).
@@ -281,32 +282,40 @@ Proof.
   destruct (tags_spec (arrived ++ [x])) as [NDt' Mt']. fold ts' in NDt', Mt'.
   assert (Hg' : In g ts').
   { apply Mt'. rewrite map_app, in_app_iff. right. simpl. auto. }
-  rewrite (scan_after_add ts' G g (l ++ [x])); auto.
+  fold n. rewrite (scan_after_add ts' G g (l ++ [x])); auto.
   2:{ unfold G, upd. now rewrite String.eqb_refl. }
   2:{ destruct l; discriminate. }
   2:{ rewrite map_app. simpl. exact NDl'. }
   2:{ intros k Hk Hne. unfold G, upd. destruct (String.eqb_spec k g); [congruence|]. apply F_inert. }
   (* put the pieces together *)
-  unfold emission. change (atag x) with g. rewrite El'.
-  assert (Fin : forall k, In k ts' -> k <> g -> F (arrived ++ [x]) k = F arrived k).
-  { intros k _ Hne. unfold F. rewrite sel_snoc. change (atag x) with g.
+  unfold emission. fold g. rewrite El'.
+  assert (Fin : forall k, k <> g -> F (arrived ++ [x]) k = F arrived k).
+  { intros k Hne. unfold F. rewrite sel_snoc. fold g.
     destruct (String.eqb_spec g k); [congruence|]. now rewrite app_nil_r. }
+  assert (Fgx : F (arrived ++ [x]) g = if Nat.eqb (length (l ++ [x])) n then empties (l ++ [x]) else ones (l ++ [x])).
+  { unfold F. now rewrite El'. }
   destruct (Nat.eqb_spec (length (l ++ [x])) n) as [E|E].
   - f_equal. f_equal. f_equal. unfold tv_of. fold ts'. apply mk_ext. intros k Hk. unfold upd, G, upd.
     destruct (String.eqb_spec k g).
-    + subst k. unfold F. rewrite El'. destruct (Nat.eqb_spec (length (l ++ [x])) n); [reflexivity|congruence].
+    + subst k. now rewrite Fgx.
     + now rewrite Fin.
   - f_equal. f_equal. f_equal. unfold tv_of. fold ts'. apply mk_ext. intros k Hk. unfold G, upd.
     destruct (String.eqb_spec k g).
-    + subst k. unfold F. rewrite El'. destruct (Nat.eqb_spec (length (l ++ [x])) n); [congruence|reflexivity].
+    + subst k. now rewrite Fgx.
     + now rewrite Fin.
+Qed.
+
+Lemma NoDup_app_l {A} (a b : list A) : NoDup (a ++ b) -> NoDup a.
+Proof.
+  induction a as [|x a IH]; simpl; intros H; [constructor|]. inversion H; subst.
+  constructor; auto. intros Hx. apply H2. rewrite in_app_iff. auto.
 Qed.
 
 Lemma wf_prefix a b : wf (a ++ b) -> wf a.
 Proof.
   intros (A & B & C & D). split; [auto|]. split; [|split].
   - intros x Hx. apply B. rewrite in_app_iff. auto.
-  - rewrite map_app in C. now apply NoDup_app_remove_r in C.
+  - rewrite map_app in C. now apply NoDup_app_l in C.
   - intros x y Hx Hy. apply D; rewrite in_app_iff; auto.
 Qed.
 
@@ -314,10 +323,10 @@ Lemma run_flat : forall rest arrived,
   wf (arrived ++ rest) ->
   run (c1 items) (mkst (tv_of arrived) []) rest = (outs_spec arrived rest, None).
 Proof.
-  induction rest as [|[p [id g]] rest IH]; intros arrived W; simpl; auto.
-  replace (arrived ++ (p, (id, g)) :: rest) with ((arrived ++ [(p, (id, g))]) ++ rest) in W
-    by now rewrite <- app_assoc.
-  rewrite combine_flat by (eapply wf_prefix; exact W).
+  induction rest as [|x rest IH]; intros arrived W; simpl; auto.
+  replace (arrived ++ x :: rest) with ((arrived ++ [x]) ++ rest) in W by now rewrite <- app_assoc.
+  pose proof (combine_flat arrived x (wf_prefix _ _ W)) as C.
+  destruct x as [p t]. cbn [fst snd] in C. rewrite C.
   rewrite IH by exact W. reflexivity.
 Qed.
 
